@@ -73,6 +73,16 @@ func init() {
 		RequiredProbes: []string{"wrong_codec_refused", "reserved_codec_rejected", "same_codec_reopened", "reads_overlapping_a_write", "append_ge_64KiB_acked"},
 		QuickS:         45, ThoroughS: 600,
 	}
+	propSpecs["C19"] = &PropSpec{
+		ID: "C19",
+		Rule: "each run = one CopyLogs (80%) or CopyStable (20%) call. CopyLogs: source of 0,1,2,3,5,8,13,40 or 120 entries (payload 0-5000 bytes, extensions) starting at 1, 2, 1000, 2^32-2 or 2^40; batchBytes 0, 1, around one entry, 200, 5000, 2^30; source and destination each one of {real WAL over the simulated disk, real raft-boltdb store on tmpfs, in-memory reference store}; progress channel nil / buffered / unbuffered and never drained; every store call is a seam: in a quarter of the runs the context is cancelled before store call k, in a quarter store call k returns an I/O error. " +
+			"Oracles: without cancellation/fault the destination equals the source (First, Last, every field) and an empty source yields nil + empty destination; with cancellation the error is the context's and the destination holds a prefix of the source; an injected error is returned (never swallowed) and leaves a prefix; the progress channel is closed on every return path. CopyStable: the three raft keys and extra keys arrive; pre-cancelled context returns its error. " +
+			"Non-trivial = every run; distinct = (store pairing, size bucket, batchBytes, channel kind, mode).",
+		Components:     "real: migrate, wal+segment (WAL stores over the simulated disk), raft-boltdb v2 (tmpfs); harness: in-memory reference store, seam wrapper around both stores",
+		Assumptions:    []string{"migrate's 1 ms best-effort time.After on a blocked progress channel is left real (no property depends on its outcome)"},
+		RequiredProbes: []string{"full_copy_checked", "prefix_checked", "empty_source_copied", "progress_closed_checked", "stable_copied"},
+		QuickS:         40, ThoroughS: 400,
+	}
 	propSpecs["C14"] = &PropSpec{
 		ID: "C14",
 		Rule: "each run = a seeded WAL with 1-4 batches (so several segments exist and a rotation may be pending), then a tape-chosen set of racing tasks - an appender (2-6 batches), 0-3 readers (GetLog/FirstIndex/LastIndex), a stable-store client - and the closer, which calls Close after a tape-chosen number of scheduling steps; the scheduler orders Close's flag swap, lock acquisition, state swap and finalizer against every other task's hook points (after each closed-check, between state load and reference, before each lock / rotation wait) and seam calls. " +
